@@ -985,7 +985,7 @@ func (d *driver) oracle() *vt.Finding {
 	if final != otelcol.StateClosed {
 		return vt.Failf("end-state/"+final.String(), "run reached Running and was stopped (%v) but the final state is %v, want Closed (Run err=%v)%s", keys(d.stopKinds), final, err, fmtLog(ev, -1))
 	}
-	for _, sch := range schemes {
+	for _, sch := range allSchemes {
 		if n := provShutBy[sch]; n != 1 {
 			return vt.Failf(fmt.Sprintf("provider-shutdown/count=%d", n), "run reached Running and was stopped (%v) but Shutdown of config provider %q was called %d times, want 1 (all providers: %v; Run err=%v)%s", keys(d.stopKinds), sch, n, provShutBy, err, fmtLog(ev, -1))
 		}
